@@ -254,7 +254,7 @@ def run_case(case, ctx):
             obs["kind_" + kind] += 1
             if not close(kev["k"][ri], ref, None, rel=1e-10):
                 viol.append(violation("grain_rate_mismatch", f"{fmt}+{model} {kind} ({lines[ri].strip()[:70]}): k={kev['k'][ri]!r}, model gives {ref!r} "
-                                      f"(mantle {pt["mant_mode"]})", rkind=kind, observed=kev["k"][ri], reference=ref, point=pt, species=r.get("species")))
+                                      f"(mantle {pt['mant_mode']})", rkind=kind, observed=kev["k"][ri], reference=ref, point=pt, species=r.get("species")))
         # eb_<alias> constants must be the species' own binding energies
         for g, spd in case["species"].items():
             c = consts.get(f"eb_G{g}I")
